@@ -129,6 +129,8 @@ def gen(rng):
     if rng.random() < 0.08 and first["mode"] in ("ping_timeout", "close_body", "eof"):
         sc["sender"] = {"at": rng.choice((S // 2, S)), "block": rng.choice((None, 10 * S, 20 * S)), "len": 50}
         return sc
+    if rng.random() < 0.1 and "on_close" in cbs:
+        sc["close_in_on_close"] = True  # on_close itself calls close()
     if rng.random() < 0.15:
         sc["tls"] = True  # SSLDispatcher, pending(), TLS shutdown on the way out
     if first["mode"] in ("close_body", "close_nobody", "cb_close", "thread_close") and first.get("cb") != "on_error" and rng.random() < 0.3:
@@ -246,6 +248,8 @@ def expand(item, seed):
                                    "callbacks": ALL_CBS, "policy": {"kind": "coop", "p_call": 0.0}, "seed": 3}
                         else:
                             yield {"first": r, "callbacks": ALL_CBS, "policy": {"kind": "coop", "p_call": 0.0}, "seed": 3}
+                            if not ping and mode != "ping_timeout_midframe":
+                                yield {"first": r, "callbacks": ALL_CBS, "policy": {"kind": "coop", "p_call": 0.0}, "seed": 3, "close_in_on_close": True}
                             if not ping and mode not in ("refused",):
                                 yield {"first": r, "callbacks": ALL_CBS, "policy": {"kind": "coop", "p_call": 0.0}, "seed": 3, "tls": True}
                             if mode in ("close_body", "close_nobody", "cb_close", "thread_close") and cb != "on_error":
@@ -400,6 +404,12 @@ def run(sc, choices=None):
                     or first["mode"] not in ("close_body", "close_nobody", "cb_close", "eof", "reset") or sc.get("second") or sc.get("closer"):
                 raise InvalidScenario("raiser")
             cb_all[raiser] = {"do": "raise", "nth": 1}
+        if sc.get("close_in_on_close"):
+            # the application's on_close itself calls close() (a common idiom: "make sure it is closed"): a callback like the
+            # others - the run still returns, on_close is not called again
+            if "on_close" not in cbs or "on_close" in over1:
+                raise InvalidScenario("close_in_on_close")
+            cb_all["on_close"] = {"do": "close"}
         if sc.get("tls"):
             ro1 = dict(ro1, tls=True)
         if sc.get("reconnect"):
